@@ -35,7 +35,7 @@ CLAIMED = {
             "across units for all finite magnitudes on representative pairs"),
     "C12": ("E1+E2", "Kani/CBMC on number and colour equality; MIR symbolic execution of Numeric::partial_cmp",
             "bounded model checking: symmetry / reflexivity / trichotomy of number, numeric and rgba colour equality for ALL non-NaN doubles"),
-    "C13": ("E1+E2", "Kani/CBMC bounded model checking of the real generic OrderMap (one instantiation); MIR symbolic execution of map.merge's do_merge",
+    "C13": ("E1+E2", "Kani/CBMC bounded model checking of the real generic OrderMap (one instantiation); MIR symbolic execution of map.merge's do_merge, map.set's set_inner, do_deep_merge, the map.get/has-key lookups and the map-literal arm",
             "bounded model checking, inductive step: one map operation from an arbitrary valid map of up to 3 entries, keys with a coarse =="),
     "C14": ("E1+E2", "Kani on is_true; MIR symbolic execution (z3+cvc5) of Operator::eval, BinOp::eval and the unary-not arm",
             "bounded model checking: truthiness table over every value kind; and/or operand selection by identity and short-circuit "
@@ -60,11 +60,12 @@ CLAIMED = {
             "round trips on a colour lattice, hue in [0,360) for every finite double"),
     "C32": ("E1+E2", "Kani/CBMC on invert / rotate_hue / set_alpha; MIR symbolic execution of the lighten/darken/fade closures",
             "bounded model checking (kernel scope): involution and cancellation laws for all in-range doubles"),
-    "C18": ("E2", "symbolic execution of FormalArgs::eval, Closure::eval_value and MixinDecl::get (MIR) with forking stubs for the argument containers and the scope; obligations decided by z3 and cvc5",
+    "C18": ("E2", "symbolic execution of FormalArgs::eval, CallArgs::evaluate, Closure::eval_value and MixinDecl::get (MIR) with forking stubs for the argument containers and the scope; obligations decided by z3 and cvc5",
             "bounded model checking (binding scope): parameters are bound in order to the positional value, else the named value, else the default evaluated in the "
             "callee's argument scope after the parameters to its left; missing, too many and left-over named arguments are errors; the rest parameter takes what is left; "
             "functions and mixins bind in a child of their definition-site scope and evaluate their own body there, mixin arguments are evaluated at the call site; "
-            "splats, which @return is reached, and @content are outside"),
+            "a keyword forwarded through $args... or a map splat that collides with an explicit named argument is an error; "
+            "which @return is reached and @content are outside"),
     "C20": ("E2", "symbolic execution of RuleDest::push_item / commit_rule and of the destinations' start_atmedia / start_atrule (MIR); z3 and cvc5",
             "bounded model checking (bubbling scope): an item that cannot live inside a style rule is handed unchanged to the parent after the declarations collected so far were "
             "committed, later declarations go to a fresh rule with the same selectors, a nested @media / at-rule starts with a rule copied from the parent's selectors; "
@@ -72,7 +73,7 @@ CLAIMED = {
     "C21": ("E2", "symbolic execution of handle_item's @error arm, of the destination Drop impls and of their start_atmedia / start_atrule methods (MIR); z3 and cvc5",
             "bounded model checking (dispatch scope): a declaration with a non-null value is pushed exactly once or the compilation fails; @error always fails the compilation; "
             "the Drop impls always commit their content; starting a nested @media / at-rule "
-            "never takes content out of the parent destination; "
+            "never takes content out of the parent destination; a failing step of an @each/@for/@while body ends the loop with that error; "
             "one recorded finding (a commit error inside Drop is only printed, so content can be dropped silently)"),
     "C33": ("E2", "symbolic execution of <Formatted<Rgba> as Display>::fmt (MIR) with the byte triple, style and source format symbolic; bit-vector obligations decided by z3 and cvc5",
             "bounded model checking (hex / rgb() text scope): for ALL byte triples the three-digit, six-digit and rgb() forms are written with the right digits in red-green-blue order, "
